@@ -87,6 +87,56 @@ static std::string DropGeneratedNumbers(const std::string & s)
    return o;
 }
 
+
+// ------------------------------------------------------------------------------------------------ classification of a command (violation keys)
+// <WHAT>:<filter class>, computed from the Message itself.  WHAT = name of the what code; for a PR_COMMAND_BATCH: BATCH+JETTISONRESULTS when a
+// keyed JETTISONRESULTS is nested anywhere inside, else BATCH+<first inner command>.  Filter class = no-filter | invalid-filter (field of the
+// wrong type, or an archive the real factory rejects) | accepting-filter | rejecting-filter | mixed-filter, judged by what the first archive does
+// to the payloads Rich(1..9) without a node context; for a keyed JETTISONRESULTS it is accepting-filter as soon as the real PathMatcher built
+// from the command (as the handler builds it) accepts at least one item of a PR_RESULT_DATAITEMS that is sitting in X's queue right now.
+static const muscle::Message * FindKeyedJettison(const muscle::Message & m, int depth)
+{
+   if (m.what == muscle::PR_COMMAND_JETTISONRESULTS && m.HasName(PR_NAME_KEYS, B_STRING_TYPE)) return &m;
+   if (m.what != muscle::PR_COMMAND_BATCH || depth > 110) return NULL;
+   muscle::ConstMessageRef sub;
+   for (int32_t i = 0; m.FindMessage(PR_NAME_KEYS, i, sub).IsOK(); i++) if (sub()) { const muscle::Message * r = FindKeyedJettison(*sub(), depth + 1); if (r) return r; }
+   return NULL;
+}
+static const muscle::Message * FirstInner(const muscle::Message & m, int depth)
+{
+   if (m.what != muscle::PR_COMMAND_BATCH || depth > 110) return &m;
+   muscle::ConstMessageRef sub;
+   if (m.FindMessage(PR_NAME_KEYS, 0, sub).IsOK() && sub()) return FirstInner(*sub(), depth + 1);
+   return NULL;
+}
+static std::string ClassOfMessage(const muscle::Message & top, const muscle::Queue<MessageRef> * xq)
+{
+   const muscle::Message * t = &top; std::string w = c07::WhatName(top.what);
+   if (top.what == muscle::PR_COMMAND_BATCH) {
+      const muscle::Message * j = FindKeyedJettison(top, 0);
+      if (j) { w = "BATCH+JETTISONRESULTS"; t = j; }
+      else { const muscle::Message * f = FirstInner(top, 0); if (f && f != &top) { w = "BATCH+" + c07::WhatName(f->what); t = f; } }
+   }
+   if (!t->HasName(PR_NAME_FILTERS)) return w + ":no-filter";
+   muscle::ConstMessageRef arch;
+   if (t->FindMessage(PR_NAME_FILTERS, arch).IsError() || arch() == NULL) return w + ":invalid-filter";
+   muscle::QueryFilterRef q = muscle::GetGlobalQueryFilterFactory()()->CreateQueryFilter(*arch());
+   if (q() == NULL) return w + ":invalid-filter";
+   if (t->what == muscle::PR_COMMAND_JETTISONRESULTS && xq && t->HasName(PR_NAME_KEYS, B_STRING_TYPE)) {
+      muscle::PathMatcher pm; (void) pm.PutPathsFromMessage(PR_NAME_KEYS, PR_NAME_FILTERS, *t, "*/*");   // "*/*" = DEFAULT_PATH_PREFIX of StorageReflectSession.cpp
+      if (pm.GetNumFilters() > 0)
+         for (uint32_t i = 0; i < xq->GetNumItems(); i++) {
+            const muscle::Message * qm = (*xq)[i](); if (qm == NULL || qm->what != muscle::PR_RESULT_DATAITEMS) continue;
+            for (muscle::MessageFieldNameIterator it = qm->GetFieldNameIterator(B_MESSAGE_TYPE); it.HasData(); it++) {
+               muscle::ConstMessageRef item;
+               for (int32_t k = 0; qm->FindMessage(it.GetFieldName(), k, item).IsOK(); k++) if (pm.MatchesPath(it.GetFieldName()(), item(), NULL)) return w + ":accepting-filter";
+            }
+         }
+   }
+   int yes = 0; for (int v = 1; v <= 9; v++) { muscle::ConstMessageRef p = Rich(v); if (q()->Matches(p, NULL)) yes++; }
+   return w + ((yes == 9) ? ":accepting-filter" : (yes == 0) ? ":rejecting-filter" : ":mixed-filter");
+}
+
 // ------------------------------------------------------------------------------------------------ the scene
 struct Scene {
    l1::L1World w;
@@ -371,7 +421,8 @@ static void RunHistory(const c07::Alphabet & A, int pre, const int * cmds, int n
    std::string cls;
    for (int k = 0; k < n; k++) {
       MessageRef m = A.Build(cmds[k]);
-      cls = A.ClassOf(cmds[k]) + ":" + QueueClass(S.w, RX);
+      Crumb(c07::WhatName(m()->what) + ":classifying-the-command-against-the-queue", "", k + 1, n);
+      cls = ClassOfMessage(*m(), (S.w.S(RX) && S.w.S(RX)->GetGateway()()) ? &S.w.S(RX)->GetGateway()()->GetOutgoingMessageQueue() : NULL) + ":" + QueueClass(S.w, RX);
       const bool jet = (m()->what == muscle::PR_COMMAND_JETTISONRESULTS || m()->what == muscle::PR_COMMAND_JETTISONDATATREES);
       std::string before; if (jet) before = QueueText(S.w, RX);
       if (verbose) { printf("X command %d of %d: %s   [class %s]\n", k + 1, n, A.Name(cmds[k]).c_str(), cls.c_str()); fflush(stdout); }
@@ -446,10 +497,12 @@ static void RunHistoryL2(const c07::Alphabet & A, int pre, const int * cmds, int
    if (verbose) printf("L2 pre-state %d: %s\n  X never reads; Messages the server holds for X behind the full socket: [%s]\n", pre, kPreName[pre], L2QueueSummary(w).c_str());
    int tag = 5000;
    for (int k = 0; k < n; k++) {
-      const std::string cls = "L2:" + A.ClassOf(cmds[k]) + ":" + L2QueueClass(w);
+      MessageRef m = A.Build(cmds[k]);
+      Crumb("L2:" + c07::WhatName(m()->what) + ":classifying-the-command-against-the-queue", "", k + 1, n);
+      const std::string cls = "L2:" + ClassOfMessage(*m(), (w.s[RX]() && w.s[RX]()->GetGateway()()) ? &w.s[RX]()->GetGateway()()->GetOutgoingMessageQueue() : NULL) + ":" + L2QueueClass(w);
       if (verbose) { printf("X writes command %d of %d to its socket: %s   [class %s]\n", k + 1, n, A.Name(cmds[k]).c_str(), cls.c_str()); fflush(stdout); }
       Crumb(cls, "client-write", k + 1, n);
-      if (!w.Send(RX, A.Build(cmds[k]))) { c.Fail("l2-input-not-accepted:" + cls, "the server stopped reading X's socket: command " + l1::U32((uint32_t)k + 1) + " could not be written"); return; }
+      if (!w.Send(RX, m)) { c.Fail("l2-input-not-accepted:" + cls, "the server stopped reading X's socket: command " + l1::U32((uint32_t)k + 1) + " could not be written"); return; }
       Crumb(cls, "event-loop-pass", k + 1, n);
       w.Pass(2); ADD(loopPasses, 2); ADD(commands, 1);
       if (verbose) { printf("  two event-loop cycles returned; held for X: [%s]\n", L2QueueSummary(w).c_str()); fflush(stdout); }
@@ -490,7 +543,7 @@ struct Driver {
    const c07::Alphabet & A; const verif::Args & args; verif::Result & res;
    std::set<Hist> dead;          // histories whose worker died (or, for failed checks, that ended in a violation): never extended
    double cpuLimit;
-   Driver(const c07::Alphabet & a, const verif::Args & ar, verif::Result & r) : A(a), args(ar), res(r), cpuLimit(1.0) {}
+   Driver(const c07::Alphabet & a, const verif::Args & ar, verif::Result & r) : A(a), args(ar), res(r), cpuLimit(1.5) {}   // 1.5 s CPU: > 1000x the median history (1.3 ms, --bench), > 70x the slowest one (20 ms)
 
    std::string Desc(int pre, const int * cmds, int n) const
    {
@@ -611,26 +664,14 @@ int main(int argc, char ** argv)
       if (!e.empty()) { res.infra_errors.push_back(verif::Fmt("pre-state %d: ", pre) + e + " [queue: " + QueueSummary(S.w, RX) + "]"); return res.Write(args); }
       res.observations.push_back(verif::Fmt("pre-state %d (%s): X's undrained queue = [%s]", pre, kPreName[pre], QueueSummary(S.w, RX).c_str()));
    }
-   if (args.kv.count("list")) { for (int c = 0; c < A.Size(); c++) printf("%5d %s%s%s   [%s]\n", c, A.Name(c).c_str(), (A.Flags(c) & c07::SB) ? "  {builder}" : "", (A.Flags(c) & c07::RED) ? " {reduced}" : "", A.ClassOf(c).c_str()); return 0; }
+   if (args.kv.count("list")) { for (int c = 0; c < A.Size(); c++) printf("%5d %s%s%s   [%s]\n", c, A.Name(c).c_str(), (A.Flags(c) & c07::SB) ? "  {builder}" : "", (A.Flags(c) & c07::RED) ? " {reduced}" : "", ClassOfMessage(*A.Build(c)(), NULL).c_str()); return 0; }
 
-   if (args.kv.count("bench")) {   // timing aid: --bench <pre> : cost of every depth-1 history from that pre-state, in this process
-      const int pre = atoi(args.kv["bench"].c_str()); double worst = 0; int worstC = -1; const double t0 = verif::NowS();
-      struct rusage r0, r1; getrusage(RUSAGE_SELF, &r0);
-      for (int c = 0; c < A.Size(); c++) { if (A.ClassOf(c).find("JETTISONRESULTS") == 0) continue; const double a = verif::NowS(); mutx::Case cc; RunHistory(A, pre, &c, 1, cc, NULL, false); const double d = verif::NowS() - a; if (d > worst) { worst = d; worstC = c; } }
-      { const double a = verif::NowS(); for (int i = 0; i < 1000; i++) { Scene S; (void) BuildPre(S, pre); } printf("BuildPre+teardown: %.3f ms\n", (verif::NowS() - a)); }
-      { const double a = verif::NowS(); for (int i = 0; i < 1000; i++) { l1::L1World w; } printf("empty world: %.3f ms\n", (verif::NowS() - a)); }
-      { const double a = verif::NowS(); for (int i = 0; i < 1000; i++) { l1::L1World w; w.Attach(0, "hX", 1); w.Attach(1, "hV", 2); w.Attach(2, "hW", 3); } printf("world+3 sessions: %.3f ms\n", (verif::NowS() - a)); }
-      { Scene S; (void) BuildPre(S, pre); double a = verif::NowS(); for (int i = 0; i < 1000; i++) (void) VictimState(S.w); printf("VictimState: %.3f ms\n", (verif::NowS() - a));
-        a = verif::NowS(); for (int i = 0; i < 1000; i++) (void) VictimProbe(S); printf("VictimProbe: %.3f ms\n", (verif::NowS() - a));
-        a = verif::NowS(); std::string why; for (int i = 0; i < 1000; i++) (void) WitnessPing(S, why); printf("WitnessPing: %.3f ms\n", (verif::NowS() - a));
-        a = verif::NowS(); for (int i = 0; i < 1000; i++) (void) S.w.CheckTreeInvariants(); printf("CheckTreeInvariants: %.3f ms\n", (verif::NowS() - a));
-        a = verif::NowS(); for (int i = 0; i < 1000; i++) (void) Rich(5); printf("Rich: %.3f ms\n", (verif::NowS() - a));
-        a = verif::NowS(); for (int i = 0; i < 1000; i++) (void) S.w.Step(); printf("Step: %.3f ms\n", (verif::NowS() - a));
-        mutx::Case cc; a = verif::NowS(); for (int i = 0; i < 1000; i++) (void) AfterHistory(S, "x", 1, cc); printf("AfterHistory: %.3f ms %d\n", (verif::NowS() - a), (int)cc.failed);
-        a = verif::NowS(); for (int i = 0; i < 1000; i++) (void) verif::HashStr(ServerState(S.w, S.fsf)); printf("final dump+hash: %.3f ms\n", (verif::NowS() - a)); }
-      getrusage(RUSAGE_SELF, &r1);
-      printf("pre %d: %d histories, %.3f ms each (wall), user %.2fs sys %.2fs, slowest %.3f ms: %s\n", pre, A.Size(), 1000 * (verif::NowS() - t0) / A.Size(), (r1.ru_utime.tv_sec - r0.ru_utime.tv_sec) + 1e-6 * (r1.ru_utime.tv_usec - r0.ru_utime.tv_usec),
-             (r1.ru_stime.tv_sec - r0.ru_stime.tv_sec) + 1e-6 * (r1.ru_stime.tv_usec - r0.ru_stime.tv_usec), 1000 * worst, worstC >= 0 ? A.Name(worstC).c_str() : "");
+   if (args.kv.count("bench")) {   // timing aid (justifies the watchdog budget): CPU cost of every depth-1 history from the idle pre-state, run in this process
+      double worst = 0; int worstC = -1; struct rusage r0, r1; getrusage(RUSAGE_SELF, &r0); std::vector<double> all;
+      for (int c = 0; c < A.Size(); c++) { const double a = verif::NowS(); mutx::Case cc; RunHistory(A, P_IDLE, &c, 1, cc, NULL, false); const double d = verif::NowS() - a; all.push_back(d); if (d > worst) { worst = d; worstC = c; } }
+      getrusage(RUSAGE_SELF, &r1); std::sort(all.begin(), all.end());
+      const double cpu = (r1.ru_utime.tv_sec - r0.ru_utime.tv_sec) + 1e-6 * (r1.ru_utime.tv_usec - r0.ru_utime.tv_usec) + (r1.ru_stime.tv_sec - r0.ru_stime.tv_sec) + 1e-6 * (r1.ru_stime.tv_usec - r0.ru_stime.tv_usec);
+      printf("%d histories from the idle pre-state: %.3f ms CPU each on average, median %.3f ms, 99th percentile %.3f ms (wall); slowest %.3f ms (wall): %s\n", A.Size(), 1000 * cpu / A.Size(), 1000 * all[all.size() / 2], 1000 * all[all.size() * 99 / 100], 1000 * worst, worstC >= 0 ? A.Name(worstC).c_str() : "");
       return 0;
    }
    const bool thorough = args.Thorough();
@@ -697,11 +738,13 @@ int main(int argc, char ** argv)
       }
       CaseRec * rec = D.Run(s2, args.t0 + budget * (thorough ? 0.8 : 0.92), false);
       verif::Part & p = res.parts.back();
+      { std::string fc = "["; for (size_t i = 0; i < s2.prefixes.size(); i++) { if (i) fc += ", "; fc += (s2.prefixes.size() <= 200) ? verif::JStr(verif::Fmt("pre %d: ", s2.prefixes[i].pre) + A.Name(s2.prefixes[i].cmd[0])) : verif::Fmt("[%d,%d]", s2.prefixes[i].pre, s2.prefixes[i].cmd[0]); }
+        p.extra[(s2.prefixes.size() <= 200) ? "first_commands" : "first_commands_as_pre_and_command_index"] = fc + "]"; }
       p.rule = std::string("every history (pre-state, first command, second command); first command = one representative (the lowest-numbered command) of each distinct abstract post-state class reached at depth 1 "
                            "(abstract class = node tree with payloads, subscriber tables and indices + X's subscriptions, default route, flags and limits + X's undrained queue with DATAITEMS / DATATREES / INDEXUPDATED Messages in full and every other queued Message by its what code; "
                            "commands that leave the exact canonical state unchanged and the class of the pre-state itself are left out: their extensions are the depth-1 cases), taken ")
              + (thorough ? "among ALL commands for the pre-states 2 and 3 (the ones with a full queue) and among the commands flagged as state builders for the pre-states 0, 1 and 4, plus the quick tier's representatives"
-                         : "among the reduced alphabet (listed in part reduced-depth2 of the thorough tier) for the pre-states 0, 2 and 3")
+                         : "among the reduced alphabet (the commands flagged {reduced} in the output of --list; the chosen first commands are listed in extra) for the pre-states 0, 2 and 3")
              + " [first commands per pre-state: " + counts + "]; second command = every one of the " + AlphabetText(A)
              + "; a history is not executed when a proper prefix or a proper suffix of it already died from the same pre-state (counted in extra); " + kOracleText;
       Driver::FreeRecs(rec, s2.Size());
